@@ -486,6 +486,8 @@ class FnTr:
                 return self.finish_init()
             raise Unsupported(f'`{self.inst.qual}`: control can fall off the end (returns None)')
         s, rest = stmts[0], stmts[1:]
+        if self.u.hooks.get('curved_gen') and isinstance(s, ast.Assert):
+            return self.cv_assert(s, rest)        # `assert T`: AssertionError unless T
         if self.u.hooks.get('geojson_doc'):
             ext = self.gj_stmt(s, rest)           # dict stores, appends of raising values, nested defs with declared types: see `gj_stmt`
             if ext is not None:
@@ -2647,6 +2649,105 @@ class FnTr:
         self.pending = pend
         return self.wrap(f'match {call} with\n| some {r} => {self.ok(r)}\n| none =>\n{_indent(after)}')
 
+    # ---- vertex generators of the curved shapes (unit hook `curved_gen`, unit SrcCurvedGen) --------------------------
+    #
+    # the sample count `k` is a `Nat` (`kwargs.get('k')`: absent and 0 are both falsy, so the `**kwargs` binder *is* that
+    # number, 0 when absent); `X or D` on such a number is `if X = 0 then D else X` with `D` read as a `Nat` (a negative
+    # default clamps to 0: the model's reading); `range(k, -1, -1)` is the model's `schedule k`; a counter next to a float
+    # is `Num.ofN`; a call `self.m(**kwargs)` / `self.m()` of an instance declared with a `kw` binder passes the caller's
+    # number / 0.
+
+    def cv_unify(self, a, b):
+        if a.typ == 'N' and b.typ == 'Nat':
+            return a, Val(f'(Num.ofN {b.text})', 'N')
+        if a.typ == 'Nat' and b.typ == 'N':
+            return Val(f'(Num.ofN {a.text})', 'N'), b
+        return a, b
+
+    def cv_nat(self, node, v):
+        """an int-valued default read as a sample count"""
+        if v.typ == 'Nat':
+            return v.text
+        if v.typ == 'Int':
+            c = _int_const(node)
+            if c is not None and c >= 0:
+                return f'({c} : Nat)'
+            return f'(Int.toNat {v.text})'
+        raise Unsupported(f'`{self.inst.qual}`: `{ast.unparse(node)[:60]}` ({v.typ}) as a sample count')
+
+    def cv_assert(self, s, rest):
+        if not self.inst.raises:
+            raise Unsupported(f'`{self.inst.qual}`: `{ast.unparse(s)[:60]}` (AssertionError) in an instance declared not to raise')
+        c = self.truth(self.expr(s.test))
+        pend, self.pending = self.pending, []
+        after = self.block(rest)
+        self.pending = pend
+        return self.wrap(f'if {c} then\n{_indent(after)}\nelse\n  Except.error "ERR:Other:AssertionError"')
+
+    def cv_expr(self, e):
+        if isinstance(e, ast.ListComp) and len(e.generators) == 1 and not e.generators[0].ifs and not e.generators[0].is_async \
+                and isinstance(e.generators[0].target, ast.Tuple) and len(e.generators[0].target.elts) == 2 \
+                and all(isinstance(t, ast.Name) for t in e.generators[0].target.elts):
+            # `[f(x, y) for x, y in zip(xs, ys)]`: a map over the list of pairs
+            g = e.generators[0]
+            xs = self.expr(g.iter)
+            parts = _prod_parts(xs.typ[5:]) if xs.typ.startswith('List Prod ') else None
+            if not parts or len(parts) != 2:
+                raise Unsupported(f'`{self.inst.qual}`: comprehension with a pair target over {xs.typ}')
+            p = self.gensym('pair')
+            inner = self.sub()
+            inner.fresh = self.fresh
+            for i, (t, pt) in enumerate(zip(g.target.elts, parts)):
+                inner.env[t.id] = Val(f'{p}.{i + 1}', pt, path=t.id)
+                inner.narrow.pop(t.id, None)
+            el = inner.expr(e.elt)
+            if inner.pending:
+                raise Unsupported(f'`{self.inst.qual}`: a call that may raise inside a comprehension')
+            self.fresh = inner.fresh
+            return Val(f'(({xs.text}).map (fun {p} => {el.text}))', 'List ' + el.typ)
+        if isinstance(e, ast.BoolOp) and isinstance(e.op, ast.Or) and len(e.values) == 2 and isinstance(e.values[0], ast.Call) \
+                and isinstance(e.values[0].func, ast.Attribute) and isinstance(e.values[0].func.value, ast.Name) \
+                and e.values[0].func.value.id in self.env and self.env[e.values[0].func.value.id].typ == 'KwK':
+            a = self.expr(e.values[0])
+            if a.typ != 'Nat':
+                raise Unsupported(f'`{self.inst.qual}`: `{ast.unparse(e)[:60]}`: {a.typ} or …')
+            b = self.cv_nat(e.values[1], self.expr(e.values[1]))
+            return Val(f'(if {a.text} = 0 then {b} else {a.text})', 'Nat')
+        if isinstance(e, ast.Call) and isinstance(e.func, ast.Name) and e.func.id in ('min', 'max') and e.func.id not in self.env \
+                and len(e.args) == 1 and not e.keywords and not isinstance(e.args[0], ast.GeneratorExp):
+            # `min(xs)` / `max(xs)` over a list of floats of the numeric class: first extremal element, ValueError when empty
+            a = self.expr(e.args[0])
+            if a.typ == 'List N':
+                fn = 'GV.Sphere.pyMin' if e.func.id == 'min' else 'GV.Sphere.pyMax'
+                r = Val(f'(match {fn} {a.text} with | some v => Except.ok v | none => Except.error "ERR:Value")', 'N')
+                r.raises = True
+                return r
+            raise Unsupported(f'`{self.inst.qual}`: {e.func.id} of {a.typ}')
+        if isinstance(e, ast.Call) and isinstance(e.func, ast.Name) and e.func.id == 'range' and 'range' not in self.env:
+            if len(e.args) == 3 and not e.keywords and _int_const(e.args[1]) == -1 and _int_const(e.args[2]) == -1:
+                a = self.expr(e.args[0])
+                if a.typ == 'Nat':
+                    return Val(f'(GV.Sphere.schedule {a.text})', 'List Nat')          # k, k-1, …, 0
+            raise Unsupported(f'`{self.inst.qual}`: `{ast.unparse(e)}` (only `range(k, -1, -1)` over a sample count)')
+        if isinstance(e, ast.Call) and isinstance(e.func, ast.Attribute) and isinstance(e.func.value, ast.Name) \
+                and e.func.value.id == 'self' and not e.args:
+            recv = self.expr(e.func.value)
+            cls = self.u.class_of(recv.typ)
+            inst = next((i for i in self.u.insts if cls and i.qual == f'{cls}.{e.func.attr}' and getattr(i, 'kw', None)
+                         and len(i.params) == 1), None)
+            if inst is not None:
+                if not e.keywords:
+                    kw = '(0 : Nat)'                                   # no `k`: the callee's default
+                elif len(e.keywords) == 1 and e.keywords[0].arg is None and isinstance(e.keywords[0].value, ast.Name) \
+                        and self.env.get(e.keywords[0].value.id) is not None and self.env[e.keywords[0].value.id].typ == 'KwK':
+                    kw = self.env[e.keywords[0].value.id].text
+                else:
+                    raise Unsupported(f'`{self.inst.qual}`: keyword arguments in `{ast.unparse(e)[:80]}`')
+                v = self.apply(inst, [recv])
+                v.text = v.text[:-1] + ' ' + kw + ')'
+                return v
+        return None
+
     def truth(self, v):
         """Python truthiness as a Lean Bool"""
         if v.typ == 'Bool':
@@ -2687,6 +2788,10 @@ class FnTr:
         return v
 
     def _expr(self, e):
+        if self.u.hooks.get('curved_gen'):
+            ext = self.cv_expr(e)                # `kwargs.get('k') or d`, `range(k, -1, -1)`, calls with `**kwargs`: see `cv_expr`
+            if ext is not None:
+                return ext
         if self.u.hooks.get('geojson_doc'):
             ext = self.gj_expr(e)                # dict displays, slices, `^`, 4-tuples, raising conditional arms, …: see `gj_expr`
             if ext is not None:
@@ -3111,6 +3216,9 @@ class FnTr:
         if a.typ == b.typ == 'N':
             t = {ast.Lt: '(Num.lt {0} {1})', ast.LtE: '(Num.le {0} {1})', ast.Gt: '(Num.lt {1} {0})',
                  ast.GtE: '(Num.le {1} {0})'}.get(type(op))
+            if t is None and self.u.hooks.get('curved_gen') and isinstance(op, (ast.Eq, ast.NotEq)):
+                # (curved_gen) float `==` through the class's order: `a <= b and b <= a` (false on NaN, true on 0.0 == -0.0)
+                t = '(Num.le {0} {1} && Num.le {1} {0})' if isinstance(op, ast.Eq) else '(!(Num.le {0} {1} && Num.le {1} {0}))'
             if t is None:
                 raise Unsupported(f'comparison {type(op).__name__} on the numeric class')
             return Val(t.format(_paren(a.text), _paren(b.text)), 'Bool')
@@ -3145,6 +3253,8 @@ class FnTr:
 
     def unify_num(self, a, b):
         """an int literal next to a float-modelled-as-rational operand is that rational"""
+        if self.u.hooks.get('curved_gen'):
+            a, b = self.cv_unify(a, b)          # a loop counter (`Nat`) next to a float of the numeric class: `Num.ofN`
         if a.typ == 'N' and b.typ == 'Int':
             return a, Val(f'(Num.ofI {b.text})', 'N')
         if a.typ == 'Int' and b.typ == 'N':
